@@ -364,6 +364,35 @@ pub fn run(mut run: Run) -> i32 {
             }
             Err(e) => acc.viol(format!("prepared.relate(prepared) {}x{} panic", a.ty(), b.ty()), idx, || json!({"a": a.wkt(), "b": b.wkt(), "panic": e})),
         }
+        // the same pair written differently (exact scales 2^-30 / 2^30, zeros as -0.0, f32): prepared and plain must still agree with each other
+        if idx % 3 == 0 {
+            let variants: Vec<(&str, Geometry<f64>, Geometry<f64>)> = vec![
+                ("scaled by 2^-30", map_geom_f(&a.g, &|c| geo::Coord { x: c.x / 1073741824.0, y: c.y / 1073741824.0 }), map_geom_f(&b.g, &|c| geo::Coord { x: c.x / 1073741824.0, y: c.y / 1073741824.0 })),
+                ("scaled by 2^30", map_geom_f(&a.g, &|c| geo::Coord { x: c.x * 1073741824.0, y: c.y * 1073741824.0 }), map_geom_f(&b.g, &|c| geo::Coord { x: c.x * 1073741824.0, y: c.y * 1073741824.0 })),
+                ("a with zeros as -0.0", neg_zeros(&a.g, 1), b.g.clone()),
+            ];
+            for (what, va, vb) in variants {
+                acc.evals += 1;
+                let r = guard(|| {
+                    let pa = PreparedGeometry::from(&va);
+                    (im_string(&pa.relate(&vb)), im_string(&vb.relate(&pa)), im_string(&va.relate(&vb)), im_string(&vb.relate(&va)))
+                });
+                match r {
+                    Ok((p1, p2, e1, e2)) if p1 == e1 && p2 == e2 => {}
+                    other => acc.viol(format!("prepared relate differs from plain on the same pair {} ({}x{})", what, a.ty(), b.ty()), idx, || json!({"a": format!("{:?}", va), "b": format!("{:?}", vb), "prepared.relate(b) / b.relate(prepared) / plain / plain reversed": format!("{:?}", other)})),
+                }
+            }
+            acc.evals += 1;
+            let (fa, fb) = (to_f32(&a.g), to_f32(&b.g));
+            let r = guard(|| {
+                let pa = PreparedGeometry::from(&fa);
+                (im_string(&pa.relate(&fb)), im_string(&fb.relate(&pa)), im_string(&fa.relate(&fb)), im_string(&fb.relate(&fa)))
+            });
+            match r {
+                Ok((p1, p2, e1, e2)) if p1 == e1 && p2 == e2 => {}
+                other => acc.viol(format!("prepared relate<f32> differs from plain ({}x{})", a.ty(), b.ty()), idx, || json!({"a": a.wkt(), "b": b.wkt(), "result": format!("{:?}", other)})),
+            }
+        }
     });
     // affine images of the families (oblique edges: the R-tree envelopes of the segments overlap far more than on axis-parallel input), prepared in
     // either or both positions, each prepared geometry reused against every partner of its row
